@@ -124,7 +124,15 @@ where
             },
         };
         rec.nontrivial();
-        match verify_proof::<X>(decoded.clone(), &spec, &case.options) {
+        // the verifier's policy on options: the exact option set of the honest proof, or any options
+        // reaching a security level (then the header bytes are not pinned by the policy itself)
+        let outcome = if s.chance(1, 3) {
+            rec.class("policy:min_conjectured_security");
+            verify_with::<X>(decoded.clone(), &spec, &winter_verifier::AcceptableOptions::MinConjecturedSecurity(0))
+        } else {
+            verify_proof::<X>(decoded.clone(), &spec, &case.options)
+        };
+        match outcome {
             VerifyOutcome::Reject(e) => {
                 rec.class("outcome:rejected");
                 rec.class(&format!("rejected_with:{}", err_name(&e)));
@@ -150,8 +158,16 @@ where
                         let a = crate::replay::replay::<X, E>(&proof, &spec, &case.options).map(|t| t.positions);
                         let b = crate::replay::replay::<X, E>(&decoded, &spec, &case.options).map(|t| t.positions);
                         if a.is_ok() && a == b {
-                            rec.class("outcome:accepted_alternative_nonce_same_positions");
-                            continue;
+                            // ... unless the two nonces are indistinguishable to the hash function itself: merging
+                            // them into the same (arbitrary) digest must give different digests; if it does not, the
+                            // verifier cannot tell the tampered nonce from the original one for ANY proof
+                            let probe = <X::H as winter_crypto::Hasher>::hash(b"C04 nonce probe");
+                            let collide = <X::H as winter_crypto::Hasher>::merge_with_int(probe, proof.pow_nonce) == <X::H as winter_crypto::Hasher>::merge_with_int(probe, decoded.pow_nonce);
+                            if !collide {
+                                rec.class("outcome:accepted_alternative_nonce_same_positions");
+                                continue;
+                            }
+                            return Err(Fail::new("tampered-proof-accepted:nonce-indistinguishable-to-the-hasher", format!("the verifier ACCEPTED a proof whose nonce was changed from {} to {}: the hasher merges both into the same digest (mutation: {d}; {ctx})", proof.pow_nonce, decoded.pow_nonce)));
                         }
                         Some(diff)
                     },
@@ -160,7 +176,28 @@ where
                 match same {
                     None => rec.class("outcome:accepted_equal"),
                     Some(diff) => {
-                        let key = format!("tampered-proof-accepted:{op}:{}", diff.chars().filter(|c| c.is_alphanumeric() || *c == '_' || *c == ',').take(60).collect::<String>());
+                        // a context that differs ONLY in the partition options (number of partitions / hash rate)
+                        // while the rows hash exactly as before is one recorded finding, whatever operator produced it
+                        let only_partitions = diff == "[\"context\"]" && {
+                            let (a, b) = (proof.options(), decoded.options());
+                            a.partition_options() != b.partition_options()
+                                && a.num_queries() == b.num_queries()
+                                && a.blowup_factor() == b.blowup_factor()
+                                && a.grinding_factor() == b.grinding_factor()
+                                && a.field_extension() == b.field_extension()
+                                && a.to_fri_options().folding_factor() == b.to_fri_options().folding_factor()
+                                && a.to_fri_options().remainder_max_degree() == b.to_fri_options().remainder_max_degree()
+                                && a.constraint_batching_method() == b.constraint_batching_method()
+                                && a.deep_poly_batching_method() == b.deep_poly_batching_method()
+                                && proof.trace_info() == decoded.trace_info()
+                                && proof.context.num_constraints() == decoded.context.num_constraints()
+                                && proof.context.field_modulus_bytes() == decoded.context.field_modulus_bytes()
+                        };
+                        let key = if only_partitions {
+                            "tampered-proof-accepted:partition-options-not-bound".to_string()
+                        } else {
+                            format!("tampered-proof-accepted:{op}:{}", diff.chars().filter(|c| c.is_alphanumeric() || *c == '_' || *c == ',').take(60).collect::<String>())
+                        };
                         if rec.tolerate_known(&key) {
                             continue;
                         }
